@@ -11,9 +11,9 @@
  *
  *   request line : <path>
  *   answer line  (file <output-prefix>.<rank>, one per request):
- *       ERR <code> # fsz=<file size> grow=<growth of the allocator high-water mark> ms=<wall ms>
- *       OK <fmt> <numrecs|-> <ndims> <nvars> <ngatts> <unlimdim> D <len>... G <type>:<nelems>... \
- *          V <ndims> <type> <begin> <natts> <dimid>... ; ...  # <same trailer> hs=<header size> he=<header extent> \
+ *       ERR <code> F <bytes hdr_fetch asked MPI-IO for|-> # fsz=<file size> grow=<growth of the allocator high-water mark> ms=<wall ms>
+ *       OK <fmt> <numrecs|-> <ndims> <nvars> <ngatts> <unlimdim> D <len>... \
+ *          V <ndims> <type> <begin> <natts> <dimid>... ; ... F <bytes>  # G <type>:<nelems>... <same trailer> hs=<header size> he=<header extent> \
  *          rs=<recsize> nrv=<#record vars> wf=<ok|list of violated self-consistency rules> rd=<codes of the small reads> \
  *          close=<code>
  *   The part before '#' is what lean/Driver/C19.lean prints for the same bytes (request `OPEN <hex>`).
@@ -40,6 +40,18 @@
 static FILE *out;
 static int rank;
 
+/* PMPI interposition (the harness is linked statically against libpnetcdf.a): what hdr_fetch asks MPI-IO for */
+static long long rd_calls, rd_bytes;
+static int lookup_miss;
+int MPI_File_read_at(MPI_File fh, MPI_Offset off, void *buf, int count, MPI_Datatype dt, MPI_Status *st) {
+    rd_calls++; rd_bytes += count;
+    return PMPI_File_read_at(fh, off, buf, count, dt, st);
+}
+int MPI_File_read_at_all(MPI_File fh, MPI_Offset off, void *buf, int count, MPI_Datatype dt, MPI_Status *st) {
+    rd_calls++; rd_bytes += count;
+    return PMPI_File_read_at_all(fh, off, buf, count, dt, st);
+}
+
 static void on_alarm(int sig) {
     (void)sig;
     if (out) { ssize_t r = write(fileno(out), "TIMEOUT\n", 8); (void)r; }     /* the buffered partial answer is dropped */
@@ -59,7 +71,9 @@ static MPI_Datatype native(int t) {
     }
 }
 
-#define WF(cond, tag) do { if (!(cond)) { if (wfn < 900) wfn += snprintf(wf + wfn, sizeof wf - wfn, "%s%s", wfn ? "," : "", tag); } } while (0)
+#define WF(cond, tag) do { if (!(cond)) { if (wfn < 900) wfn += snprintf(wf + wfn, WFSZ - wfn, "%s%s", wfn ? "," : "", tag); } } while (0)
+#define WFE(err, tag) do { if ((err) != NC_NOERR) { if (wfn < 900) wfn += snprintf(wf + wfn, WFSZ - wfn, "%s%s(%d)", wfn ? "," : "", tag, (err)); } } while (0)
+#define WFSZ 1024
 #define MAXLIST 100000
 
 static void walk_atts(int ncid, int varid, int natts, int fmt, char *wf, int *wfnp, int print) {
@@ -68,13 +82,17 @@ static void walk_atts(int ncid, int varid, int natts, int fmt, char *wf, int *wf
         char nm[NC_MAX_NAME + 8]; nc_type xt = 0; MPI_Offset n = -1; int err, id = -1;
         nm[0] = 0;
         err = ncmpi_inq_attname(ncid, varid, i, nm);
-        WF(err == NC_NOERR, "attname");
+        WFE(err, "attname");
         if (err != NC_NOERR) continue;
         WF(strlen(nm) <= NC_MAX_NAME, "attnamelen");
         err = ncmpi_inq_att(ncid, varid, nm, &xt, &n);
         /* two attributes of one list may carry the same name in a damaged file: the lookup by name then
            finds one of them; that is self-consistent as far as the API can tell */
-        WF(err == NC_NOERR, "inqatt");
+        /* the reader does not look at name characters: a name with an embedded NUL comes back from inq_attname
+           truncated and is then not found by name (NC_ENOTATT), one with characters the API refuses in names
+           is refused by the lookup (NC_EBADNAME): counted, not a self-consistency failure */
+        if (err == NC_ENOTATT || err == NC_EBADNAME) { lookup_miss++; continue; }
+        WFE(err, "inqatt");
         if (err != NC_NOERR) continue;
         if (print) fprintf(out, " %d:%lld", (int)xt, (long long)n);
         WF(type_ok(fmt, (int)xt), "atttype");
@@ -142,9 +160,9 @@ int main(int argc, char **argv) {
                 if (n > 0) {            /* the lines that identify a sanitizer report */
                     char *p, *sv; int k = 0;
                     eb[n] = 0;
-                    for (p = strtok_r(eb, "\n", &sv); p && k < 6; p = strtok_r(NULL, "\n", &sv))
+                    for (p = strtok_r(eb, "\n", &sv); p && k < 12; p = strtok_r(NULL, "\n", &sv))
                         if (strstr(p, "ERROR: AddressSanitizer") || strstr(p, "runtime error:") || strstr(p, "SUMMARY:") ||
-                            strstr(p, "ERROR: LeakSanitizer") || strstr(p, "    #0 ") || strstr(p, "    #1 ") || strstr(p, "    #2 ")) { fprintf(out, " | %.300s", p); k++; }
+                            (strncmp(p, "    #", 5) == 0 && p[5] >= '0' && p[5] <= '7' && p[6] == ' ')) { fprintf(out, " | %.300s", p); k++; }
                 }
                 fprintf(out, "\n"); fflush(out);
                 continue;
@@ -155,28 +173,33 @@ int main(int argc, char **argv) {
             }
         }
         int ncid = -1, err, fmt = 0, ndims = -1, nvars = -1, ngatts = -1, unlim = -2, i, j, wfn = 0, nrv = -1, cerr;
-        char wf[1024], rd[1024]; int rdn = 0;
+        char wf[WFSZ], rd[1024]; int rdn = 0;
         MPI_Offset m0 = 0, m1 = 0, hs = -1, he = -1, rs = -1, numrecs = -1;
+        long long ofetch = 0, ocalls = 0;
         struct stat sb; double t0;
         wf[0] = 0; rd[0] = 0;
         sb.st_size = -1; stat(path, &sb);
         ncmpi_inq_malloc_max_size(&m0);
         t0 = now_ms();
         alarm(secs);
+        rd_calls = rd_bytes = 0; lookup_miss = 0;
         err = ncmpi_open(MPI_COMM_WORLD, path, NC_NOWRITE, MPI_INFO_NULL, &ncid);
         if (err != NC_NOERR) {
             ncmpi_inq_malloc_max_size(&m1);
             alarm(0);
-            fprintf(out, "ERR %d # fsz=%lld grow=%lld ms=%.0f\n", err, (long long)sb.st_size, (long long)(m1 - m0), now_ms() - t0);
+            fprintf(out, "ERR %d F ", err);
+            if (rd_calls) fprintf(out, "%lld", rd_bytes); else fprintf(out, "-");
+            fprintf(out, " # fsz=%lld grow=%lld ms=%.0f fetches=%lld\n", (long long)sb.st_size, (long long)(m1 - m0), now_ms() - t0, rd_calls);
             fflush(out);
             if (dofork && pid == 0) _exit(0);
             continue;
         }
         ncmpi_inq_malloc_max_size(&m1);
+        ofetch = rd_bytes; ocalls = rd_calls;
         ncmpi_inq_format(ncid, &fmt);
         fmt = fmt == NC_FORMAT_CDF5 ? 5 : fmt == NC_FORMAT_CDF2 ? 2 : 1;
         err = ncmpi_inq(ncid, &ndims, &nvars, &ngatts, &unlim);
-        WF(err == NC_NOERR, "inq");
+        WFE(err, "inq");
         WF(ndims >= 0 && nvars >= 0 && ngatts >= 0, "counts");
         WF(unlim == -1 || (unlim >= 0 && unlim < ndims), "unlimid");
         if (unlim >= 0) ncmpi_inq_dimlen(ncid, unlim, &numrecs);
@@ -187,14 +210,12 @@ int main(int argc, char **argv) {
             char nm[NC_MAX_NAME + 8]; MPI_Offset l = -1; int id = -1;
             nm[0] = 0;
             err = ncmpi_inq_dim(ncid, i, nm, &l);
-            WF(err == NC_NOERR, "inqdim");
+            WFE(err, "inqdim");
             WF(strlen(nm) <= NC_MAX_NAME, "dimnamelen");
             WF(l >= 0, "dimlen<0");
             fprintf(out, " %lld", (long long)(i == unlim ? 0 : l));
             if (ncmpi_inq_dimid(ncid, nm, &id) == NC_NOERR) WF(id >= 0 && id < ndims, "dimid");
         }
-        fprintf(out, " G");
-        walk_atts(ncid, NC_GLOBAL, ngatts, fmt, wf, &wfn, 1);
         fprintf(out, " V");
         for (i = 0; i < nvars && i < MAXLIST; i++) {
             char nm[NC_MAX_NAME + 8]; nc_type xt = 0; int nd = -1, na = -1, *dimids = NULL; MPI_Offset off = -1;
@@ -205,12 +226,12 @@ int main(int argc, char **argv) {
             dimids = (int*)malloc(sizeof(int) * ((size_t)nd + 1));
             if (dimids == NULL) { WF(0, "harness-malloc"); fprintf(out, " %d ? ;", nd); continue; }
             err = ncmpi_inq_var(ncid, i, nm, &xt, &nd, dimids, &na);
-            WF(err == NC_NOERR, "inqvar");
+            WFE(err, "inqvar");
             WF(strlen(nm) <= NC_MAX_NAME, "varnamelen");
             WF(type_ok(fmt, (int)xt), "vartype");
             WF(na >= 0, "varnatts");
             err = ncmpi_inq_varoffset(ncid, i, &off);
-            WF(err == NC_NOERR, "varoffset");
+            WFE(err, "varoffset");
             fprintf(out, " %d %d %lld %d", nd, (int)xt, (long long)off, na);
             for (j = 0; j < nd; j++) {
                 if (j < 64) fprintf(out, " %d", dimids[j]);
@@ -237,11 +258,13 @@ int main(int argc, char **argv) {
         WF(ncmpi_inq_header_extent(ncid, &he) == NC_NOERR && (nvars == 0 || he >= hs), "hdrextent");
         WF(ncmpi_inq_recsize(ncid, &rs) == NC_NOERR && rs >= 0, "recsize");
         WF(ncmpi_inq_num_rec_vars(ncid, &nrv) == NC_NOERR && nrv >= 0 && nrv <= nvars, "nrecvars");
+        fprintf(out, " F %lld # G", ofetch);
+        walk_atts(ncid, NC_GLOBAL, ngatts, fmt, wf, &wfn, 1);
         cerr = ncmpi_close(ncid);
         alarm(0);
-        fprintf(out, " # fsz=%lld grow=%lld ms=%.0f hs=%lld he=%lld rs=%lld nrv=%d wf=%s rd=%s close=%d\n",
-                (long long)sb.st_size, (long long)(m1 - m0), now_ms() - t0, (long long)hs, (long long)he, (long long)rs, nrv,
-                wfn ? wf : "ok", rdn ? rd : "-", cerr);
+        fprintf(out, " fetches=%lld fsz=%lld grow=%lld ms=%.0f hs=%lld he=%lld rs=%lld nrv=%d wf=%s rd=%s miss=%d close=%d\n",
+                ocalls, (long long)sb.st_size, (long long)(m1 - m0), now_ms() - t0, (long long)hs, (long long)he, (long long)rs, nrv,
+                wfn ? wf : "ok", rdn ? rd : "-", lookup_miss, cerr);
         fflush(out);
         if (dofork && pid == 0) _exit(0);
     }
